@@ -12,13 +12,14 @@ for f in glob.glob(f"{src}/*_test.go") + glob.glob(f"{src}/*.sh") + glob.glob(f"
     shutil.copy(f, dst)
 meta = json.load(open(f"{src}/meta.json"))
 suite = ""
-lg = f"/var/tmp/seed-suite/{sid}.log"
+sd = os.environ.get("SEED_SUITE", "/var/tmp/seed-suite")
+lg = f"{sd}/{sid}.log"
 if os.path.exists(lg):
     t = open(lg).read()
     ok = t.count("\nok ") + (1 if t.startswith("ok ") else 0)
     fails = [l for l in t.splitlines() if l.startswith("FAIL") or l.startswith("--- FAIL")]
     suite = f"go test ./... with the patch applied: {ok} packages ok" + (f"; failures: {fails[:4]}" if fails else "; no failures")
-rr = f"/var/tmp/seed-suite/{sid}.rerun.log"
+rr = f"{sd}/{sid}.rerun.log"
 if os.path.exists(rr):
     suite += "; the failing package is timing-sensitive under machine load and passed when re-run alone with the patch: " + open(rr).read().strip().splitlines()[-1]
 meta["confirmed_by_me"] = {
